@@ -73,6 +73,7 @@ ASSUME HexLower(<<0, 171>>) = <<48, 48, 97, 98>>
 ASSUME NatDecCodes(1024) = <<49, 48, 50, 52>>
 \* the native search accelerator equals its TLA+ definition
 M0 == Master(Rep(32, 7))
+ASSUME \A k \in {0, 1, 135, 136, 137, 300} : Keccak256Rep(<<1, 2, 3>>, 90, k) = Keccak256(<<1, 2, 3>> \o [i \in 1..k |-> 90])
 \* the native bulk oracle equals its TLA+ definition (12 signatures, some of which need the low-s flip)
 ASSUME \A q \in 1..2 : LET d == Sha256(<<q>>) IN BulkSignHash(d, <<7, q>>, 1000 * q, 6) = BulkSignHashSpec(d, <<7, q>>, 1000 * q, 6)
 ASSUME \E i \in 1..6 : Sign(Sha256(<<1>>), BulkDigest(<<7, 1>>, 1000 + i - 1)).flipped
